@@ -92,13 +92,21 @@ def run(tier, seed):
         ("(input-file *stdin*)", "attach=1,stdinpipe=1,delay=150:INTERRUPT", "sig", "105.110.112.117.116.45.102.105.108.101"),
         ("(input-file *stdin*)", "attach=1,stdinpipe=1,delay=150:ABORT", "abort", ""),
     ]
+    # several commands pending at once while the worker is blocked: they are honoured in the order sent - an ABORT followed
+    # closely by an INTERRUPT still aborts, also inside a trap that would have caught the interrupt (repeated: timing)
+    for _ in range(4):
+        blocked += [("(eval (trap (input-file *stdin*) 'caught))", "attach=1,stdinpipe=1,delay=150:ABORT;153:INTERRUPT", "abort", ""),
+                    ("(eval (trap (receive) 'caught))", "attach=1,delay=150:ABORT;153:INTERRUPT", "abort", "")]
     lines = [f"run env=p,cont=1,{o} {enc(p + ' (add 40 2)')}" for p, o, _, _ in blocked]
     answers = run_driver_cases(lines, timeout=20.0)
     rep.evaluations += len(lines)
     for (p, o, want, frag), a in zip(blocked, answers):
         r = dump.split_run_answer(a)
         res = r.get("results") or []
-        good = len(res) == 2 and res[0][0] == want and frag in res[0][1] and res[1] == ("ok", "I42")
+        if ";" in o:      # two commands: the second one may legitimately still be pending and stop the following form
+            good = len(res) == 2 and res[0][0] == want and frag in res[0][1] and (res[1] == ("ok", "I42") or res[1][0] == "sig")
+        else:
+            good = len(res) == 2 and res[0][0] == want and frag in res[0][1] and res[1] == ("ok", "I42")
         if not good:
             rep.violation(f"a command sent while the worker is blocked in {p} was not honoured (or the interpreter was not usable afterwards)", {"program": p + " (add 40 2)", "opts": o, "observed": a[:300]})
     # (programs without traps, also none inside the macros they use: the let macro traps signals while it checks its bindings)
